@@ -27,6 +27,7 @@ import (
 	"go.minekube.com/gate/pkg/edition/java/config"
 	"go.minekube.com/gate/pkg/edition/java/proto/packet"
 	"go.minekube.com/gate/pkg/edition/java/proto/packet/plugin"
+	"go.minekube.com/gate/pkg/edition/java/proto/packet/tablist/legacytablist"
 	"go.minekube.com/gate/pkg/edition/java/proxy"
 	gproto "go.minekube.com/gate/pkg/gate/proto"
 	"go.minekube.com/gate/pkg/verifexport"
@@ -73,13 +74,14 @@ var idPool = func() []int {
 type dirInfo struct {
 	unknown []int        // ids not registered by gate for (version, play, direction)
 	passID  int          // known pass-through packet (-1: none)
+	pass2ID int          // second known pass-through packet: legacy PlayerListItem, backend -> client (-1: none)
 	icptID  int          // known intercepted packet (-1: none)
 	mine    map[int]bool // ids whose arrival is part of the trace
 }
 
 func dirInfoFor(dir gproto.Direction, ver int) dirInfo {
 	reg := rig.RegisteredPlayIDs(dir, ver)
-	di := dirInfo{passID: -1, icptID: -1, mine: map[int]bool{}}
+	di := dirInfo{passID: -1, pass2ID: -1, icptID: -1, mine: map[int]bool{}}
 	for _, id := range idPool {
 		if !reg[id] {
 			di.unknown = append(di.unknown, id)
@@ -108,8 +110,45 @@ func dirInfoFor(dir gproto.Direction, ver int) dirInfo {
 		if id, ok := rig.PlayID(dir, ver, &plugin.Message{}); ok {
 			di.icptID = id
 		}
+		// session_backend_play.go handleLegacyPlayerListItem: the proxy peeks at the packet for its
+		// own tab-list view (an entry it cannot take is logged) and forwards the received payload.
+		if id, ok := rig.PlayID(dir, ver, &legacytablist.PlayerListItem{}); ok && ver >= rig.P1_8 && ver <= rig.P1_19_1 {
+			di.pass2ID = id
+			di.mine[id] = true
+		}
 	}
 	return di
+}
+
+// playerListItemBody is a wire-valid 1.8 - 1.19.1 PlayerListItem with one entry: ordinary adds,
+// adds a tab-list plugin would send for a fake player (empty name, all-zero UUID), and updates /
+// removes of entries nobody added.
+func playerListItemBody(ver int, rng *rand.Rand) []byte {
+	var id [16]byte
+	rng.Read(id[:])
+	variant := rng.Intn(6)
+	if variant == 2 {
+		id = [16]byte{}
+	}
+	b := &mcwire.Buf{}
+	switch variant {
+	case 0, 1, 2:
+		name := fmt.Sprintf("fake%d", rng.Intn(1000))
+		if variant == 1 {
+			name = ""
+		}
+		b.VarInt(0).VarInt(1).Raw(id[:]).String(name).VarInt(0).VarInt(rng.Intn(4)).VarInt(rng.Intn(300)).Bool(false)
+		if ver >= rig.P1_19 {
+			b.Bool(false)
+		}
+	case 3:
+		b.VarInt(2).VarInt(1).Raw(id[:]).VarInt(rng.Intn(300)) // latency
+	case 4:
+		b.VarInt(1).VarInt(1).Raw(id[:]).VarInt(rng.Intn(4)) // game mode
+	default:
+		b.VarInt(4).VarInt(1).Raw(id[:]) // remove
+	}
+	return b.B
 }
 
 func clientSettingsBody(ver int, rng *rand.Rand) []byte {
@@ -232,10 +271,12 @@ func expand(steps []step, dir string, ver, srcThr, dstThr int, di dirInfo, rng *
 	}
 	for _, s := range steps {
 		switch {
-		case s.Kind == "pass" && di.passID >= 0:
+		case s.Kind == "pass" && (di.passID >= 0 || di.pass2ID >= 0):
 			seq++
 			if dir == "c2s" {
 				res = append(res, out{id: di.passID, body: clientSettingsBody(ver, rng), kind: "pass"})
+			} else if di.pass2ID >= 0 && (di.passID < 0 || rng.Intn(2) == 0) {
+				res = append(res, out{id: di.pass2ID, body: playerListItemBody(ver, rng), kind: "pass"})
 			} else {
 				b := make([]byte, 8)
 				rng.Read(b)
